@@ -4,6 +4,7 @@
 package main
 
 import (
+	"strconv"
 	"bufio"
 	"bytes"
 	"encoding/base64"
@@ -567,6 +568,17 @@ func main() {
 	scratch := flag.String("scratch", "/dev/shm/verif-casereplay", "scratch")
 	flag.StringVar(&agentExe, "agent", "", "built whawty-auth binary: the schema's rules for unsupported files also through the command line")
 	flag.Parse()
+	// VERIF_ARGON_THREADS=n: the argon2id sets use n lanes (run together with GOMAXPROCS < n: the digest is a function of
+	// the configured parameters, not of the processors the process happens to have)
+	if t, _ := strconv.Atoi(os.Getenv("VERIF_ARGON_THREADS")); t > 0 {
+		for id, ps := range sets {
+			if ps.Algo == "argon" {
+				ps.Threads = uint8(t)
+				ps.Memory = uint32(8 * t)
+				sets[id] = ps
+			}
+		}
+	}
 	start := time.Now()
 	f, err := os.Open(*in)
 	must(err)
